@@ -66,7 +66,7 @@ func (g *gen) stmt(d int) {
 	if inLoop {
 		cs = append(cs, choice{5, g.stmtJump})
 	}
-	if g.fc.f != nil && len(g.fc.results) > 0 && g.fc.named == nil && g.inExprClosure == 0 && !g.insideClosure() {
+	if g.fc.f != nil && len(g.fc.results) > 0 && g.fc.named == nil && g.inExprClosure == 0 && !g.insideClosure() && g.noReturn == 0 {
 		cs = append(cs, choice{2, g.stmtEarlyReturn})
 	}
 	if g.fc.f != nil && g.fc.named == nil && g.chance(4) && !g.insideClosure() {
@@ -488,6 +488,11 @@ func (g *gen) stmtSwitch(d int) {
 	caseBody := func(isDefault bool) {
 		g.ind++
 		g.push(false)
+		if isDefault && g.avoided("switch-default:return-call") {
+			// no return statement inside a default clause
+			g.noReturn++
+			defer func() { g.noReturn-- }()
+		}
 		if isDefault && g.avoided("switch-default:jump") {
 			// break/continue written inside a default clause must not target anything outside it
 			saved := g.fc.ctl
